@@ -93,6 +93,10 @@ pub const fn validate_uuid(uuid: &Uuid) -> Result<(), UuidValidationError> {
 /// ```
 #[must_use]
 pub fn make_uuid() -> Uuid {
+    #[cfg(delaunay_verif)]
+    if let Some(seeded) = crate::verif::uuid::next() {
+        return seeded;
+    }
     Uuid::new_v4()
 }
 
